@@ -395,6 +395,7 @@ func (fr *Frame) applyContract(c *Contract, f *ssa.Function, sig *types.Signatur
 	for _, g := range c.Ghost {
 		env := &Env{vc: vc, names: bind, heap: pre, old: pre, pkg: pkg, reach: fr.curReach}
 		env.result = res
+		env.post = fr.heap
 		idx, err1 := env.eval(g.Index)
 		val, err2 := env.eval(g.Value)
 		if err1 != nil || err2 != nil {
